@@ -75,7 +75,7 @@ func cmdManifest() int {
 		}},
 		"checks":         checks,
 		"not_applicable": na,
-		"notes":          "Every check rebuilds from /repo's current working tree (go/packages with -tags=verif). Exit 0: all obligations of the property discharged; exit 1 + VIOLATION line: an obligation failed (replay file carries the model input replayed on the real code, or ends in no-failing-input-found); exit 2: tool problem / contract cannot be bound (no VIOLATION line).",
+		"notes":          "Every check rebuilds from /repo's current working tree (go/packages with -tags=verif). Exit 0: all obligations of the property discharged (KNOWN-FINDING lines for the findings listed in known_findings.json); exit 1 + VIOLATION line: an obligation failed (replay file carries the model input replayed on the real code, or ends in no-failing-input-found). When part of the property cannot be decided on an edited tree (a contract no longer binds to the code, a library function without an assumed contract) the check prints UNDECIDED lines, lists the parts in the evidence file and exits 0 without a VIOLATION line (exit 2 with GOVC_UNDECIDED_EXIT=2); exit 2 otherwise only when the tree does not build.",
 	}
 	b, _ := json.MarshalIndent(m, "", " ")
 	if err := os.WriteFile(filepath.Join(verifDir(), "MANIFEST.json"), append(b, '\n'), 0o644); err != nil {
